@@ -530,7 +530,8 @@ class Interp:
 
     def render_block(self, st, name, depth, base, defs):
         tname, node = defs[depth]
-        if node[4]:  # required
+        if node[4] and depth == 0:
+            # a required block that no descendant overrides
             raise ModelError("TemplateRuntimeError", f"required block {name} not overridden")
         inner = Scope(base)
         if depth + 1 < len(defs):
